@@ -293,13 +293,23 @@ pub(super) struct Shape {
 }
 
 pub(super) fn any_shape() -> Shape {
-    let i: u8 = kani::any();
+    any_shape_k(None)
+}
+/// `only`: restrict the id kind (used to split one obligation into three smaller queries).
+pub(super) fn any_shape_k(only: Option<IdK>) -> Shape {
     let s: u8 = kani::any();
-    kani::assume(i < 3 && s < 5);
-    let idk = match i {
-        0 => IdK::Existing,
-        1 => IdK::ToBeRenamed,
-        _ => IdK::NewlyGenerated,
+    kani::assume(s < 5);
+    let idk = match only {
+        Some(k) => k,
+        None => {
+            let i: u8 = kani::any();
+            kani::assume(i < 3);
+            match i {
+                0 => IdK::Existing,
+                1 => IdK::ToBeRenamed,
+                _ => IdK::NewlyGenerated,
+            }
+        }
     };
     let ssk = match s {
         0 => SsK::NotLoaded,
@@ -644,7 +654,10 @@ pub(super) struct World {
 
 /// An arbitrary reachable-or-not state satisfying INV, with arbitrary store and configuration.
 pub(super) fn any_world(cookie: SessionCookieConfig) -> World {
-    let sh = any_shape();
+    any_world_k(cookie, None)
+}
+pub(super) fn any_world_k(cookie: SessionCookieConfig, only: Option<IdK>) -> World {
+    let sh = any_shape_k(only);
     let db = any_db();
     kani::assume(inv(&sh, &db.borrow()));
     let cfg = leak_config(any_state_config(), cookie);
@@ -937,26 +950,64 @@ pub(super) fn check_synced(w: &World, s: &Session<'_>, ok: bool) {
     assert!(sh2.ssk != SsK::Changed, "state still flagged as changed after sync");
 }
 
-// @tier quick
-// @obligation sync() from every INV state, store and configuration: what the next request would load under the cookie's id == the model's server-side values; old id empty after cycle_id; deleted/invalidated record gone; unrelated record untouched; only the documented failure may fail; post-state satisfies INV and refines the synchronised model (hence sync is idempotent)
-// @bounds as c11_step_server_get; backend answers every call as a plain map (no expiry race)
-// @functions Session::sync, SessionStore::{create,update,update_ttl,delete,change_id}, SessionRecordRef::empty
-// @timeout 1500
-#[kani::proof]
-#[kani::unwind(4)]
-#[kani::stub(std::fmt::format, fmt_stub)]
-fn c11_sync() {
-    let w = any_world(default_cookie());
+pub(super) struct SyncOut {
+    ok: bool,
+    ssk: SsK,
+    rec0_before: bool,
+    rec0_after: bool,
+}
+fn sync_body(only: IdK) -> SyncOut {
+    let w = any_world_k(default_cookie(), Some(only));
     let mut s = build(&w.sh, w.store, w.cfg);
     let r = s.sync();
     let ok = r.is_ok();
     std::mem::forget(r);
     check_synced(&w, &s, ok);
-    kani::cover!(ok && w.sh.idk == IdK::ToBeRenamed && w.sh.ssk == SsK::Changed, "renamed with changes");
-    kani::cover!(ok && w.sh.idk == IdK::NewlyGenerated && w.sh.ssk == SsK::Changed, "new session persisted");
-    kani::cover!(ok && w.sh.idk == IdK::Existing && w.sh.ssk == SsK::Changed && !w.db0[0].present, "changed state without a record to update");
-    kani::cover!(!ok, "the documented failure");
     std::mem::forget(s);
+    SyncOut { ok, ssk: w.sh.ssk, rec0_before: w.db0[0].present, rec0_after: w.db.borrow().recs[0].present }
+}
+
+// @tier quick
+// @obligation sync() from every INV state of a session known under its id (Existing): what the next request would load under the cookie's id == the model's server-side values; deleted/invalidated record gone; unrelated record untouched; no failure; post-state satisfies INV and refines the synchronised model (hence sync is idempotent)
+// @bounds keys {a,b}; values {null,false,true}; 5 server-state kinds x 2 client kinds x invalidated; store: 3 records arbitrary; config 2x2x2x2; backend answers every call as a plain map (no expiry race)
+// @functions Session::sync, SessionStore::{create,update,update_ttl,delete}, SessionRecordRef::empty
+// @timeout 1500
+#[kani::proof]
+#[kani::unwind(4)]
+#[kani::stub(std::fmt::format, fmt_stub)]
+fn c11_sync_existing() {
+    let o = sync_body(IdK::Existing);
+    kani::cover!(o.ok && o.ssk == SsK::Changed && !o.rec0_before, "changed state without a record to update");
+    kani::cover!(o.ok && o.ssk == SsK::Unchanged, "unchanged state");
+}
+
+// @tier quick
+// @obligation sync() from every INV state after cycle_id (ToBeRenamed): the record follows the session to the new id, the old id holds nothing, creation policy honoured under the new id; only the documented failure (never-loaded state, record gone) may fail and then leaves the store untouched; post-state INV + refinement
+// @bounds as c11_sync_existing
+// @functions Session::sync, SessionStore::{change_id,create,delete}
+// @timeout 1500
+#[kani::proof]
+#[kani::unwind(4)]
+#[kani::stub(std::fmt::format, fmt_stub)]
+fn c11_sync_renamed() {
+    let o = sync_body(IdK::ToBeRenamed);
+    kani::cover!(o.ok && o.ssk == SsK::Changed, "renamed with changes");
+    kani::cover!(!o.ok, "the documented failure");
+    kani::cover!(o.ok && o.ssk == SsK::DoesNotExist, "renamed without a record");
+}
+
+// @tier quick
+// @obligation sync() from every INV state of a brand-new session (NewlyGenerated): values persisted under the new id, creation policy honoured, nothing written for an empty session; post-state INV + refinement (the id is recorded as known once a record exists)
+// @bounds as c11_sync_existing
+// @functions Session::sync, SessionStore::create
+// @timeout 1500
+#[kani::proof]
+#[kani::unwind(4)]
+#[kani::stub(std::fmt::format, fmt_stub)]
+fn c11_sync_new() {
+    let o = sync_body(IdK::NewlyGenerated);
+    kani::cover!(o.ok && o.ssk == SsK::Changed, "new session persisted");
+    kani::cover!(o.ok && o.ssk == SsK::DoesNotExist && o.rec0_after, "empty record created by policy");
 }
 
 /// Decode the cookie value written by the real `Serialize` derive of `WireClientState`
@@ -1013,16 +1064,9 @@ pub(super) fn decode_tape() -> Option<(u128, VMap)> {
     Some((id, m))
 }
 
-// @tier quick
-// @obligation finalize() from every INV state: everything c11_sync asserts, plus the cookie decision - invalidated: a removal cookie iff the session was known, no record left; otherwise: no cookie only for a new session with no client-side values and no record, else a cookie whose value carries exactly the id the record lives under and the model's client-side values
-// @bounds as c11_sync; cookie configuration = defaults (C12 covers the attribute matrix)
-// @functions Session::finalize, Session::sync, WireClientState (derived Serialize), ResponseCookie/RemovalCookie builders
-// @timeout 1800
-#[kani::proof]
-#[kani::unwind(5)]
-#[kani::stub(std::fmt::format, fmt_stub)]
-fn c11_finalize() {
-    let w = any_world(default_cookie());
+/// returns (0 = error, 1 = no cookie, 2 = removal cookie, 3 = session cookie; client values non-empty; invalidated)
+fn finalize_body(only: IdK) -> (u8, bool, bool) {
+    let w = any_world_k(default_cookie(), Some(only));
     let mut s = build(&w.sh, w.store, w.cfg);
     let m = w.model;
     let r = s.finalize();
@@ -1056,9 +1100,57 @@ fn c11_finalize() {
             }
         }
     }
-    kani::cover!(matches!(&r, Ok(Some(c)) if c.removal), "removal cookie");
-    kani::cover!(matches!(&r, Ok(Some(c)) if !c.removal) && !vmap_is_empty(&m.client), "cookie with client-side values");
-    kani::cover!(matches!(&r, Ok(None)) && !m.invalidated, "no cookie for an empty new session");
+    let code = match &r {
+        Err(_) => 0,
+        Ok(None) => 1,
+        Ok(Some(c)) => if c.removal { 2 } else { 3 },
+    };
     std::mem::forget(r);
     std::mem::forget(s);
+    (code, !vmap_is_empty(&m.client), m.invalidated)
 }
+
+// @tier quick
+// @obligation finalize() from every INV state of a session known under its id: everything c11_sync_* asserts, plus the cookie decision - invalidated: a removal cookie iff the session was known; otherwise no cookie only for a new session with no client-side values and no record, else a cookie whose value (written by the real Serialize derive) carries exactly the id the record lives under and the model's client-side values
+// @bounds as c11_sync_existing; cookie configuration = defaults (C12 covers the attribute matrix)
+// @functions Session::finalize, Session::sync, WireClientState (derived Serialize), ResponseCookie/RemovalCookie builders
+// @timeout 1800
+#[kani::proof]
+#[kani::unwind(5)]
+#[kani::stub(std::fmt::format, fmt_stub)]
+fn c11_finalize_existing() {
+    let (code, client_vals, _inv) = finalize_body(IdK::Existing);
+    kani::cover!(code == 2, "removal cookie");
+    kani::cover!(code == 3 && client_vals, "cookie with client-side values");
+}
+
+// @tier quick
+// @obligation finalize() from every INV state of a session whose id was cycled: everything c11_sync_* asserts, plus the cookie decision - invalidated: a removal cookie iff the session was known; otherwise no cookie only for a new session with no client-side values and no record, else a cookie whose value (written by the real Serialize derive) carries exactly the id the record lives under and the model's client-side values
+// @bounds as c11_sync_existing; cookie configuration = defaults (C12 covers the attribute matrix)
+// @functions Session::finalize, Session::sync, WireClientState (derived Serialize), ResponseCookie/RemovalCookie builders
+// @timeout 1800
+#[kani::proof]
+#[kani::unwind(5)]
+#[kani::stub(std::fmt::format, fmt_stub)]
+fn c11_finalize_renamed() {
+    let (code, client_vals, _inv) = finalize_body(IdK::ToBeRenamed);
+    kani::cover!(code == 2, "removal cookie");
+    kani::cover!(code == 3 && client_vals, "cookie with client-side values");
+    kani::cover!(code == 0, "the documented failure");
+}
+
+// @tier quick
+// @obligation finalize() from every INV state of a brand-new session: everything c11_sync_* asserts, plus the cookie decision - invalidated: a removal cookie iff the session was known; otherwise no cookie only for a new session with no client-side values and no record, else a cookie whose value (written by the real Serialize derive) carries exactly the id the record lives under and the model's client-side values
+// @bounds as c11_sync_existing; cookie configuration = defaults (C12 covers the attribute matrix)
+// @functions Session::finalize, Session::sync, WireClientState (derived Serialize), ResponseCookie/RemovalCookie builders
+// @timeout 1800
+#[kani::proof]
+#[kani::unwind(5)]
+#[kani::stub(std::fmt::format, fmt_stub)]
+fn c11_finalize_new() {
+    let (code, client_vals, inv) = finalize_body(IdK::NewlyGenerated);
+    kani::cover!(code == 1 && !inv, "no cookie for an empty new session");
+    kani::cover!(code == 1 && inv, "no removal cookie for an invalidated new session");
+    kani::cover!(code == 3 && client_vals, "cookie with client-side values");
+}
+
